@@ -815,7 +815,10 @@ def _run_scenario(sc):
         asyncio.set_event_loop(None)
         loop.close()
         for coro in ctx.coros:
-            coro.close()
+            try:
+                coro.close()
+            except BaseException:                       # pylint: disable=W0703
+                pass        # a suspended run that does things in a `finally:` when it is closed
     return {"sid": sc.get("sid", 0), "cfg": ctx.cfg,
             "harness": ctx.h, "ev": ctx.ev,
             "nbody": [ctx.nbody[i] for i in range(1, ctx.n + 1)]}
